@@ -220,7 +220,11 @@ def main():
         "checks": checks,
         "not_applicable": na,
         "notes": "Run ./check <ID> [--tier quick|thorough]; VERIF_SEED selects the seed. known_findings.json lists recorded "
-                 "findings (status known) and repaired defects (status fixed, regression cases).",
+                 "findings (status known) and repaired defects (status fixed, regression cases). Every task also runs under a "
+                 "seed-determined subset of ambient process-state perturbations (pbt/ambient.py: working directory, numpy "
+                 "print/error state, decimal context, calls from fresh threads, gc pressure, import order, pyparsing global "
+                 "settings, module reload, subclassed private tables, legitimately rejected calls between the valid ones); "
+                 "VERIF_AMBIENT=plain switches that off, a replay file records the subset it was found under.",
     }
     with open(os.path.join(HERE, "MANIFEST.json"), "w") as f:
         json.dump(man, f, indent=1)
